@@ -1,51 +1,101 @@
 #!/usr/bin/env python3
-"""builds seeded/RESULTS.md and seeded/<name>/meta.json from the batch result files (later records override earlier ones)"""
-import json, os, sys, re
+"""builds seeded/RESULTS.md and seeded/<name>/meta.json from the batch result files.
+usage: seed_report.py            (reads seeded/seed_results*.jsonl: round 1 = seed_results{,2,3,4}.jsonl,
+                                  round 2 first pass = seed_results_r2.jsonl, after strengthening = seed_results_r2b.jsonl)"""
+import json, os, re, glob
 VERIF = os.path.dirname(os.path.dirname(os.path.abspath(__file__)))
-recs = {}
-for path in sys.argv[1:]:
-    for l in open(path):
-        r = json.loads(l)
-        old = recs.get(r['name'])
-        if old:
-            old['checks'].update(r['checks'])
-            old['confirm'] = r.get('confirm', old.get('confirm'))
-            old['confirmed'] = r.get('confirmed', old.get('confirmed'))
-        else:
-            recs[r['name']] = r
+SD = os.path.join(VERIF, 'seeded')
+
+
+def load(paths):
+    recs = {}
+    for path in paths:
+        if not os.path.exists(path):
+            continue
+        for l in open(path):
+            r = json.loads(l)
+            old = recs.get(r['name'])
+            if old:
+                old['checks'].update(r['checks'])
+                if r.get('confirmed') is not None and 'confirm' in r:
+                    old['confirm'] = r['confirm']
+                    old['confirmed'] = r['confirmed'] or old.get('confirmed')
+            else:
+                recs[r['name']] = r
+    return recs
+
+
+r1 = load([os.path.join(SD, f) for f in ('seed_results.jsonl', 'seed_results2.jsonl', 'seed_results3.jsonl', 'seed_results4.jsonl')])
+r2a = load([os.path.join(SD, 'seed_results_r2.jsonl')])
+r2b = load([os.path.join(SD, 'seed_results_r2b.jsonl')])
 ORIGIN = {'C11-unmasked-transpose': 'pinned-tree defect (reverse of fix 3072ea0)', 'C12-raw-href': 'pinned-tree defect (reverse of fix 62c2cec)',
           'C17-color-unwrap': 'pinned-tree defect (reverse of fix 352d767)', 'C17-position-guard': 'pinned-tree defect (reverse of fix b5bc324)'}
+
+
+def cells(r):
+    out = []
+    for c, v in sorted(r['checks'].items()):
+        out.append('%s: **%d** (%d s)' % (c, v['exit'], v['wall_s']))
+    return ', '.join(out)
+
+
+def detail(r):
+    for want in (1, 2):
+        for c, v in sorted(r['checks'].items()):
+            if v['exit'] == want:
+                d = (v['detail'] if want == 1 else v['inconclusive'])
+                if d:
+                    return d[0][:200].replace('|', '/')
+    return ''
+
+
 lines = ['# Seeded changes and which checks catch them', '',
          'Each row is a change to fast_qr that compiles and passes the 174 baseline tests, written by a fresh sub-agent that saw only the property text and a',
-         'scratch worktree (or, for the four marked rows, the original defect of the pinned tree kept as a reverse patch). "confirmed" = I re-ran in the scratch',
-         'worktree: the demonstration passes without the change, the baseline passes with it (174), the demonstration fails with it. The verdict columns are the',
-         'exit codes of `bin/check <id> --tier quick` with the patch applied to /repo (1 = VIOLATION with a natively confirmed witness, 2 = inconclusive, 0 = not seen).', '',
+         'scratch worktree (or, for four rows of round 1, the original defect of the pinned tree kept as a reverse patch). "confirmed" = re-run by me in the',
+         'scratch worktree: the demonstration passes without the change, the baseline passes with it (174), the demonstration fails with it ("see meta": confirmed',
+         'by hand with the agent\'s run script, e.g. src/wasm.rs needs a host shim). Verdict columns: exit code of `bin/check <id> --tier quick` with the patch',
+         'applied to /repo (1 = VIOLATION with a natively confirmed witness, 2 = inconclusive - never "held", 0 = not seen), wall seconds in brackets.', '',
+         '## Round 1 (30 changes)', '',
          '| seeded change | breaks | confirmed | check: exit (wall s) | what the check reported |', '|---|---|---|---|---|']
-for name in sorted(recs):
-    r = recs[name]
-    cells = []
-    detail = ''
-    for c, v in sorted(r['checks'].items()):
-        cells.append('%s: **%d** (%d s)' % (c, v['exit'], v['wall_s']))
-        if v['exit'] == 1 and v['detail'] and not detail:
-            detail = v['detail'][0][:220]
-        elif v['exit'] == 2 and v['inconclusive'] and not detail:
-            detail = v['inconclusive'][0][:220]
-    lines.append('| %s | %s | %s | %s | %s |' % (name, r['property'], 'yes' if r.get('confirmed') else 'see meta', ', '.join(cells), detail.replace('|', '/')))
-    d = os.path.join(VERIF, 'seeded', name)
-    if os.path.isdir(d) and not os.path.exists(os.path.join(d, 'meta.json')) or name not in ORIGIN:
+for name in sorted(r1):
+    r = r1[name]
+    lines.append('| %s | %s | %s | %s | %s |' % (name, r['property'], 'yes' if r.get('confirmed') else 'see meta', cells(r), detail(r)))
+lines += ['', '## Round 2 (36 changes, agents were told which mechanisms round 1 had used and asked for different ones)', '',
+          'Two passes: **first pass** = the checks as they were when the changes arrived (some runs overlapped with my edits; the early rows are the older code),',
+          '**after strengthening** = the committed checks. A change counts as caught when at least one registered check exits 1.', '',
+          '| seeded change | breaks | confirmed | first pass | after strengthening | what the check reported (after) |', '|---|---|---|---|---|---|']
+n_first = n_after = 0
+for name in sorted(r2a):
+    a = r2a[name]
+    b = r2b.get(name)
+    c1 = any(v['exit'] == 1 for v in a['checks'].values())
+    c2 = bool(b) and any(v['exit'] == 1 for v in b['checks'].values())
+    n_first += c1
+    n_after += c2
+    lines.append('| %s | %s | %s | %s | %s | %s |' % (name, a['property'], 'yes' if (a.get('confirmed') or (b and b.get('confirmed'))) else 'see meta',
+                                                    cells(a), cells(b) if b else 'not re-run', detail(b) if b else ''))
+lines += ['', 'Round 2 totals: caught by at least one check in the first pass: %d / %d; after strengthening: %d / %d.' % (n_first, len(r2a), n_after, len(r2a))]
+open(os.path.join(SD, 'RESULTS.md'), 'w').write('\n'.join(lines) + '\n')
+
+for recs, second in ((r1, None), (r2a, r2b)):
+    for name, r in recs.items():
+        d = os.path.join(SD, name)
+        if not os.path.isdir(d) or name in ORIGIN:
+            continue
+        fin = (second or {}).get(name, r)
         notes = ''
         np_ = os.path.join(d, 'NOTES.md')
         if os.path.exists(np_):
             notes = open(np_).read()
         m = {'property': r['property'], 'origin': 'written by a fresh sub-agent given only the property text and a scratch worktree',
+             'round': 1 if second is None else 2,
              'needs_to_manifest': (re.sub(r'\s+', ' ', notes)[:600] if notes else ''),
              'what_i_ran': {'confirmation_in_scratch_worktree': r.get('confirm'), 'confirmed': r.get('confirmed'),
-                            'checks_with_patch_applied_to_repo': {c: {'exit': v['exit'], 'wall_s': v['wall_s'], 'violations': v['violations']} for c, v in r['checks'].items()}},
-             'caught_by': [c for c, v in r['checks'].items() if v['exit'] == 1],
-             'inconclusive_in': [c for c, v in r['checks'].items() if v['exit'] == 2],
-             'missed_by': [c for c, v in r['checks'].items() if v['exit'] == 0]}
-        if os.path.isdir(d):
-            json.dump(m, open(os.path.join(d, 'meta.json'), 'w'), indent=1)
-open(os.path.join(VERIF, 'seeded', 'RESULTS.md'), 'w').write('\n'.join(lines) + '\n')
-print('\n'.join(lines[-len(recs):]))
+                            'checks_with_patch_applied_to_repo': {c: {'exit': v['exit'], 'wall_s': v['wall_s'], 'violations': v['violations']} for c, v in fin['checks'].items()}},
+             'caught_by': [c for c, v in fin['checks'].items() if v['exit'] == 1],
+             'inconclusive_in': [c for c, v in fin['checks'].items() if v['exit'] == 2],
+             'missed_by': [c for c, v in fin['checks'].items() if v['exit'] == 0]}
+        if second is not None:
+            m['first_pass'] = {c: v['exit'] for c, v in r['checks'].items()}
+        json.dump(m, open(os.path.join(d, 'meta.json'), 'w'), indent=1)
+print('\n'.join(lines[-3:]))
